@@ -16,7 +16,7 @@
    Without the hypothesis history independence is false for the code as it is
    (known finding collision-bucket-insertion-order): Pinned.bucket_order_refuted. *)
 From Coq Require Import List ZArith Bool Sorted Lia.
-From GZ Require Import C15.Model C15.Cluster C15.Check C15.Proofs C15.ProofsB C15.ProofsC C15.ProofsD.
+From GZ Require Import C15.Model C15.Cluster C15.Conc C15.Check C15.Proofs C15.ProofsB C15.ProofsC C15.ProofsD C15.ProofsE.
 Import ListNotations.
 Open Scope Z_scope.
 
@@ -363,4 +363,77 @@ Example ex_case_hyps :
 Proof. intros t [<-|[<-|[]]]; vm_compute; auto. Qed.
 Example ex_case_cf :
   collision_free [(0, [7; 20]); (1, [9; 30])] = true /\ collision_free [(0, [7; 20]); (1, [7; 30])] = false.
+Proof. vm_compute. auto. Qed.
+
+(* ======== the ring as a CONCURRENT object (Conc.v) ==============================================
+   ConsistentHash is guarded by an RWMutex, but AddWithReplicas is two critical sections:
+   [h.Remove(node)] and then [lock; insert; sort; unlock]; calls of other goroutines run in between.
+   The atomic actions are [ARemove n] and [AInsert x r]; [acts_of] gives the actions of a call.  The
+   theorems below hold for EVERY sequence of actions — in particular ([lts_state]) for every set of
+   threads (scripts of calls) and every schedule, finished or not. *)
+
+(* a sequential history is the sequence of its calls' actions *)
+Theorem run_is_action_run : forall vh R ops, run vh R ops = arun vh R (flat_map (acts_of R) ops).
+Proof. exact run_as_actions. Qed.
+Print Assumptions run_is_action_run.
+
+(* the state reached by threads under a schedule is the state of the action trace it executes *)
+Theorem schedule_is_action_run : forall vh R threads sched,
+  snd (lts_run vh R threads sched) = arun vh R (lts_trace (map (flat_map (acts_of R)) threads) sched).
+Proof. exact lts_state. Qed.
+Print Assumptions schedule_is_action_run.
+
+(* for all threads and all schedules: the ring invariant (sorted keys, one key per ring entry, no
+   empty bucket, every ring entry belongs to a node of the node set — the ring contains only virtual
+   nodes of members), Get never panics, none iff the ring is empty, otherwise a member *)
+Theorem concurrent_ring_invariant : forall vh R threads sched hp ihp,
+  let s := snd (lts_run vh R threads sched) in
+  Inv vh R s /\
+  get s hp ihp <> GPanic /\
+  (get s hp ihp = GNone <-> ring s = []) /\
+  (forall x, get s hp ihp = GSome x ->
+     In (nrepr x) (nodes s) /\ exists h, In h (keys s) /\ In x (bucket h (ring s))).
+Proof. exact lts_inv_get_l. Qed.
+Print Assumptions concurrent_ring_invariant.
+
+(* a removed node is never returned, whatever raced before: if in the executed trace the critical
+   section of a Remove of n is followed by no insertion of n (when all threads have finished: the last
+   completed membership call of n is a Remove), no key is answered with a value of n — for any layers
+   the racing updates left in the ring before (Remove walks all h.replicas indices and drops every
+   entry of n's repr in each slot) *)
+Theorem concurrent_removed_never_returned : forall vh R pre n post hp ihp y,
+  forallb (fun a => negb (inserts n a)) post = true -> nrepr y = n ->
+  get (arun vh R (pre ++ ARemove n :: post)) hp ihp <> GSome y.
+Proof. exact removed_never_returned_acts_l. Qed.
+Print Assumptions concurrent_removed_never_returned.
+
+Theorem remove_cleans_all_layers : forall vh R acts n h x,
+  In x (bucket h (ring (arun vh R (acts ++ [ARemove n])))) -> nrepr x <> n.
+Proof. exact remove_action_cleans. Qed.
+Print Assumptions remove_cleans_all_layers.
+
+(* Get after any trace, for every hash: the mapping depends only on the LAYERS present — per node,
+   the (replicas, value) of every insertion since its last Remove ([amap_acts]; one layer per node
+   in sequential histories): none iff no layer has a live virtual node, otherwise a value of a layer
+   owning the cyclic successor slot of the key's hash *)
+Theorem concurrent_get_owner_of_successor : forall vh R acts hp ihp,
+  let m := amap_acts R acts in
+  (forall x, get (arun vh R acts) hp ihp = GSome x ->
+             exists k, LiveL vh m x k /\ is_succ (live_hashL vh m) hp k) /\
+  (get (arun vh R acts) hp ihp = GNone <-> forall h, ~ live_hashL vh m h) /\
+  get (arun vh R acts) hp ihp <> GPanic.
+Proof. exact arun_get_owner_l. Qed.
+Print Assumptions concurrent_get_owner_of_successor.
+
+(* non-vacuity: two racing weight updates of node 1 (A: 50 replicas, B: 100) and a Remove, under the
+   schedule A B B A C: the mixed state holds 150 entries of node 1; after the Remove none *)
+Definition race_threads : list (list op) :=
+  [[OAddW (mkNode 1 0) 50]; [OAddW (mkNode 1 0) 100]; [ORemove (mkNode 1 0)]].
+Example race_example :
+  lts_trace (map (flat_map (acts_of 100)) race_threads) [0; 1; 1; 0; 2]%nat =
+    [ARemove 1; ARemove 1; AInsert (mkNode 1 0) 100; AInsert (mkNode 1 0) 50; ARemove 1] /\
+  length (keys (snd (lts_run cf_hash 100 race_threads [0; 1; 1; 0]%nat))) = 150%nat /\
+  amap_acts 100 [ARemove 1; ARemove 1; AInsert (mkNode 1 0) 100; AInsert (mkNode 1 0) 50] = [(1, (100, 0)); (1, (50, 0))] /\
+  ring (snd (lts_run cf_hash 100 race_threads [0; 1; 1; 0; 2]%nat)) = [] /\
+  finished (lts_run cf_hash 100 race_threads [0; 1; 1; 0; 2]%nat) = true.
 Proof. vm_compute. auto. Qed.
